@@ -22,6 +22,7 @@ import (
 	"go/constant"
 	"go/token"
 	"go/types"
+	"os"
 	"sort"
 	"strings"
 )
@@ -55,10 +56,12 @@ type ftr struct {
 	strct  *types.Struct
 	res    []string // named results
 	resT   []string
-	nores  bool // no result: returns the (pointer) receiver value
-	mon    bool // the body reads a slice element: results are `Option` (none = index out of range, Go would panic)
-	tmp    int
-	logs   map[string]bool
+	nores  bool            // no result: returns the (pointer) receiver value
+	names  map[string]bool // every variable name declared so far (parameters, results, locals): a second declaration
+	// of a name (shadowing in an inner block) is outside the subset
+	mon  bool // the body reads a slice element: results are `Option` (none = index out of range, Go would panic)
+	tmp  int
+	logs map[string]bool
 }
 
 func leanType(t types.Type) string {
@@ -82,9 +85,14 @@ func leanType(t types.Type) string {
 		return "UInt32"
 	case types.Uint64, types.Uint, types.Uintptr:
 		return "UInt64"
-	case types.Int, types.Int64, types.Int32, types.Int16, types.Int8, types.UntypedInt, types.UntypedRune:
-		// signed arithmetic is done on mathematical integers: none of the translated functions can overflow 64 bits
+	case types.Int, types.UntypedInt, types.UntypedRune:
+		// Go's `int` as a mathematical integer. Sound only where no 64-bit overflow can happen: the translator accepts
+		// on `int` values nothing but comparisons, `+` / `-` with a CONSTANT operand (offset arithmetic), conversions from
+		// unsigned types and to unsigned types; `*`, bit operations, shifts, negation and the narrower signed types
+		// (int8/16/32/64, whose conversions wrap) are rejected. Assumed (Sipsp/GoSem.lean): |value| < 2^62.
 		return "Int"
+	case types.Int64, types.Int32, types.Int16, types.Int8:
+		bail("signed type %s", b)
 	}
 	bail("basic type %s", b)
 	return ""
@@ -152,6 +160,9 @@ func (f *ftr) expr(e ast.Expr) string {
 		case token.NOT:
 			return "(!" + a + ")"
 		case token.SUB:
+			if leanType(f.typeOf(x)) == "Int" {
+				bail("negation of an int")
+			}
 			return "(0 - " + a + ")"
 		case token.XOR:
 			if leanType(f.typeOf(x)) == "Int" {
@@ -213,6 +224,9 @@ func (f *ftr) binop(x *ast.BinaryExpr, a, b string) string {
 		cnt := b
 		ct := leanType(f.typeOf(x.Y))
 		if ct == "Int" {
+			if tv := f.info.Types[x.Y]; tv.Value == nil {
+				bail("shift by a signed, non-constant count (Go panics on a negative count)")
+			}
 			cnt = "(Int.toNat " + b + ")"
 		} else {
 			cnt = "(" + b + ").toNat"
@@ -241,8 +255,15 @@ func (f *ftr) binop(x *ast.BinaryExpr, a, b string) string {
 	default:
 		bail("binary %s", x.Op)
 	}
-	if lt == "Int" && (op == "&&&" || op == "|||" || op == "^^^") {
-		bail("bit operation on int")
+	if lt == "Int" && (op == "&&&" || op == "|||" || op == "^^^" || op == "*") {
+		bail("bit operation / multiplication on int")
+	}
+	if lt == "Int" && (op == "+" || op == "-") {
+		_, cx := f.info.Types[x.X]
+		_, cy := f.info.Types[x.Y]
+		if !(cx && f.info.Types[x.X].Value != nil) && !(cy && f.info.Types[x.Y].Value != nil) {
+			bail("int arithmetic without a constant operand")
+		}
 	}
 	return "(" + a + " " + op + " " + b + ")"
 }
@@ -275,6 +296,16 @@ func hasIndex(n ast.Node) bool {
 		return !found
 	})
 	return found
+}
+
+func (f *ftr) declare(name string) {
+	if name == "_" {
+		return
+	}
+	if f.names[name] {
+		bail("variable %s is declared twice (shadowing)", name)
+	}
+	f.names[name] = true
 }
 
 func (f *ftr) fresh(p string) string {
@@ -375,6 +406,9 @@ func (f *ftr) stmts(ss []ast.Stmt, k string, ind string) string {
 		case *ast.AssignStmt:
 			if len(x.Lhs) == 1 && len(x.Rhs) == 1 && (x.Tok == token.ASSIGN || x.Tok == token.DEFINE) {
 				if l, ok := x.Lhs[0].(*ast.Ident); ok {
+					if x.Tok == token.DEFINE {
+						f.declare(l.Name)
+					}
 					return "(Option.bind " + f.mexpr(x.Rhs[0]) + " (fun v_" + l.Name + " =>\n" + ind + f.stmts(rest, k, ind) + "))"
 				}
 			}
@@ -429,6 +463,9 @@ func (f *ftr) stmts(ss []ast.Stmt, k string, ind string) string {
 		var name string
 		switch l := x.Lhs[0].(type) {
 		case *ast.Ident:
+			if x.Tok == token.DEFINE {
+				f.declare(l.Name)
+			}
 			name = "v_" + l.Name
 		case *ast.StarExpr:
 			if id, ok := l.X.(*ast.Ident); ok && id.Name == f.recv && f.recvPt {
@@ -466,6 +503,7 @@ func (f *ftr) stmts(ss []ast.Stmt, k string, ind string) string {
 		for _, sp := range gd.Specs {
 			vs := sp.(*ast.ValueSpec)
 			for i, nm := range vs.Names {
+				f.declare(nm.Name)
 				t := leanType(f.info.Defs[nm].Type())
 				v := "(0 : " + t + ")"
 				if t == "Bool" {
@@ -570,7 +608,11 @@ func emitFuncs(files []*ast.File, info *types.Info, pkg *types.Package) (string,
 	var sb strings.Builder
 	var done []string
 	failed := map[string]string{}
-	for _, name := range wantedFuncs {
+	wanted := wantedFuncs
+	if v := os.Getenv("EXTRACT_FUNCS"); v != "" { // for testing the translator on a scratch package
+		wanted = strings.Split(v, ",")
+	}
+	for _, name := range wanted {
 		fd, ok := decls[name]
 		if !ok {
 			failed[name] = "no such function in the source"
@@ -586,13 +628,14 @@ func emitFuncs(files []*ast.File, info *types.Info, pkg *types.Package) (string,
 					panic(r)
 				}
 			}()
-			f := &ftr{info: info, pkg: pkg, fields: map[string]bool{},
+			f := &ftr{info: info, pkg: pkg, fields: map[string]bool{}, names: map[string]bool{},
 				logs: map[string]bool{"BUG": true, "DBG": true, "ERR": true, "WARN": true}}
 			var params []string
 			if fd.Recv != nil {
 				rf := fd.Recv.List[0]
 				if len(rf.Names) == 1 {
 					f.recv = rf.Names[0].Name
+					f.declare(f.recv)
 				}
 				rt := info.Defs[rf.Names[0]].Type()
 				if p, ok := rt.(*types.Pointer); ok {
@@ -609,6 +652,7 @@ func emitFuncs(files []*ast.File, info *types.Info, pkg *types.Package) (string,
 			}
 			for _, p := range fd.Type.Params.List {
 				for _, nm := range p.Names {
+					f.declare(nm.Name)
 					params = append(params, "(v_"+nm.Name+" : "+leanType(info.Defs[nm].Type())+")")
 				}
 			}
@@ -620,11 +664,15 @@ func emitFuncs(files []*ast.File, info *types.Info, pkg *types.Package) (string,
 						rts = append(rts, t)
 					}
 					for _, nm := range r.Names {
+						f.declare(nm.Name)
 						f.res = append(f.res, nm.Name)
 						f.resT = append(f.resT, t)
 						rts = append(rts, t)
 					}
 				}
+			}
+			if len(rts) > 0 && f.recvPt {
+				bail("pointer receiver to an integer type together with a result")
 			}
 			if len(rts) == 0 {
 				if !f.recvPt {
